@@ -168,6 +168,7 @@ type OpGen struct {
 	Unclean   bool             // unclean spellings
 	Relative  bool             // relative spellings
 	NoSpecial bool             // no set-id / sticky bits, root owner only
+	always    bool             // (spellUnclean) every spelling is unclean
 }
 
 var allMutators = []string{"creat", "write", "mkdir", "mkdirall", "remove", "removeall", "rename", "symlink", "chmod", "chown", "lchown", "chtimes"}
@@ -191,8 +192,13 @@ func pickPath(r *RNG, existing []string) string {
 	}
 }
 
+// spellUnclean returns a spelling of p that differs from its cleaned form.
+func spellUnclean(r *RNG, p string) string {
+	return spell(r, &OpGen{Unclean: true, always: true}, p)
+}
+
 func spell(r *RNG, g *OpGen, p string) string {
-	if g.Unclean && r.Chance(1, 6) {
+	if g.Unclean && (g.always || r.Chance(1, 6)) {
 		switch r.Intn(5) {
 		case 0:
 			return strings.ReplaceAll(p, "/", "//")
@@ -231,9 +237,18 @@ func (g *OpGen) Gen(r *RNG, existing []string) Op {
 		if data == "" {
 			data = "w"
 		}
-		return Op{k, []string{p, itoa(writeFlags[r.Intn(len(writeFlags))]), fmt.Sprint([]uint32{0o644, 0o600, 0o666}[r.Intn(3)]), data}}
+		wm := []uint32{0o644, 0o600, 0o666}[r.Intn(3)]
+		if !g.NoSpecial && r.Chance(1, 5) {
+			wm |= []uint32{0o4000, 0o2000, 0o1000, 0o6000}[r.Intn(4)]
+		}
+		return Op{k, []string{p, itoa(writeFlags[r.Intn(len(writeFlags))]), fmt.Sprint(wm), data}}
 	case "mkdir", "mkdirall":
-		return Op{k, []string{p, fmt.Sprint([]uint32{0o755, 0o700, 0o777}[r.Intn(3)])}}
+		m := []uint32{0o755, 0o700, 0o777}[r.Intn(3)]
+		if !g.NoSpecial && r.Chance(1, 4) {
+			// the sticky bit is honoured by mkdir(2); set-id bits in the argument are masked by the kernel
+			m |= []uint32{0o1000, 0o1000, 0o2000, 0o4000}[r.Intn(4)]
+		}
+		return Op{k, []string{p, fmt.Sprint(m)}}
 	case "rename":
 		return Op{k, []string{p, spell(r, g, pickPath(r, existing))}}
 	case "symlink":
